@@ -611,6 +611,9 @@ func (m *Machine) storeElem(obj *object, arr array, i int, v value) {
 }
 
 func (m *Machine) noteArrayWrite(obj *object, fr *frame) {
+	if m.trackShared {
+		m.noteObjAccess(obj, true, fr)
+	}
 	if obj.frozen {
 		m.frozenWrites = append(m.frozenWrites, fr.pos())
 		if m.failOnFrozen {
@@ -833,7 +836,10 @@ func (m *Machine) mapGetNoFork(mp *mapObj, k value) (value, bool) {
 
 func (m *Machine) checkMapWrite(mp *mapObj, fr *frame) {
 	if mp.epoch == 0 && m.epoch != 0 {
-		panic(unsupported("write to a map created during package initialisation at " + fr.pos()))
+		m.saveMap(mp)
+	}
+	if m.trackShared {
+		m.noteMapAccess(mp, true, fr)
 	}
 	if m.frozenMaps != nil && m.frozenMaps[mp] {
 		m.frozenWrites = append(m.frozenWrites, fr.pos())
@@ -845,6 +851,10 @@ func (m *Machine) checkMapWrite(mp *mapObj, fr *frame) {
 
 func (m *Machine) mapSet(mp *mapObj, k, v value, fr *frame) {
 	m.checkMapWrite(mp, fr)
+	if m.trackShared && m.sharedMap(mp) {
+		m.publish(k)
+		m.publish(v)
+	}
 	i := m.mapFind(mp, k, fr)
 	if i >= 0 {
 		mp.vals[i] = v
@@ -890,6 +900,9 @@ func (fr *frame) lookup(ins *ssa.Lookup) value {
 		var v value
 		found := false
 		if x != nil {
+			if fr.m.trackShared {
+				fr.m.noteMapAccess(x, false, fr)
+			}
 			i := fr.m.mapFind(x, fr.get(ins.Index), fr)
 			if i >= 0 {
 				v = copyVal(x.vals[i])
